@@ -297,8 +297,14 @@ def run_case(case):
     r.outcome(f'{fam}->{tname}')
     if dfam in SCIPY_OBJ:
         obj = SCIPY_OBJ[dfam]
-        with np.errstate(all='ignore'):
-            e_cdf, e_pdf, e_ppf = obj.cdf(fin, **params), obj.pdf(fin, **params), obj.ppf(Q33, **params)
+        try:
+            with np.errstate(all='ignore'):
+                e_cdf, e_pdf, e_ppf = obj.cdf(fin, **params), obj.pdf(fin, **params), obj.ppf(Q33, **params)
+        except TypeError:
+            # the serialised parameter names are no longer scipy's keyword names: the identity cannot be formed (this is
+            # not a violation of C03; the laws above still decide)
+            r.hit('delegation-not-applicable')
+            return r
         g_ppf = ppf
         same = lambda a, b: np.array_equal(np.asarray(a, float), np.asarray(b, float), equal_nan=True)  # noqa
         fc = call('cumulative_distribution', fin.copy())
